@@ -19,6 +19,10 @@
 (* (<= MaxGen generations) -- a side may update only after the peer has     *)
 (* answered in its current phase (RFC 9001 6.1), the peer follows on its    *)
 (* next packet.                                                             *)
+(* Retransmission (AllowRetx): the client's timer fires before the server's  *)
+(* answer is captured and one Initial packet of the ClientHello flight is    *)
+(* sent again (new packet number, same CRYPTO frames); the stale frame stays *)
+(* in the code's buffer for ever and must not block the frames behind it.    *)
 (* Noise (NoisePhases # {}): a short-header datagram on the connection's own  *)
 (* 4-tuple that no key opens (damaged in transit, forged, a stateless       *)
 (* reset).  check_key_epoch runs BEFORE the AEAD check, so such a packet    *)
@@ -42,7 +46,8 @@ CONSTANTS AllowLate, AllowLateAcrossKu,   \* network reordering of application d
           OfferFirst,      \* what the ClientHello lists first: {"same","other","grease"}
           Splits,          \* ClientHello CRYPTO splits: set of sequences (orders of piece indices), e.g. {<<1>>,<<2,1>>}
           MaxApp, MaxGen, AllowEarlyGuess, Retries, ZeroRtts, EmitOn,
-          NoisePhases      \* subset of {"same","flip"}: unmasked key-phase bit of an undecryptable short-header datagram relative to the sender's
+          NoisePhases,     \* subset of {"same","flip"}: unmasked key-phase bit of an undecryptable short-header datagram relative to the sender's
+          AllowRetx        \* the client retransmits an Initial packet of its ClientHello flight (new packet number, same CRYPTO frames)
 
 Dir == {"c", "s"}
 Other(d) == IF d = "c" THEN "s" ELSE "c"
@@ -51,13 +56,13 @@ Class(s) == CASE s = "1301" -> "a" [] s = "1302" -> "b" [] s = "1303" -> "c" [] 
 OtherSuite(s) == IF s = "1301" THEN "1302" ELSE "1301"
 
 VARIABLES suite, first, split, twoPkts, retry, zrtt, coalesce, cfApp, sfApp,   \* world
-          pc, chSent, retried, sgen, acked, nApp, nextId, dgId, expect, held, sn,  \* environment / ground truth
+          pc, chSent, retried, sgen, acked, nApp, nextId, dgId, expect, held, sn, retx,  \* environment / ground truth
           initFrom, off, frags, haveCR, suiteSeen, tlsKeys, earlyKeys,   \* QuicSession / QuicTlsSession
           epoch, lastPhase, gens, outbuf,
           kfTaken, hist
 
 world == <<suite, first, split, twoPkts, retry, zrtt, coalesce, cfApp, sfApp>>
-envv  == <<pc, chSent, retried, sgen, acked, nApp, nextId, dgId, expect, held, sn>>
+envv  == <<pc, chSent, retried, sgen, acked, nApp, nextId, dgId, expect, held, sn, retx>>
 implv == <<initFrom, off, frags, haveCR, suiteSeen, tlsKeys, earlyKeys, epoch, lastPhase, gens, outbuf>>
 vars  == <<world, envv, implv, kfTaken, hist>>
 
@@ -99,7 +104,8 @@ Frames(s, p, i, dg) ==
     IF f.ft = "stream" THEN Frames([s EXCEPT !.outbuf = Append(@, [dg |-> dg, d |-> p.d, id |-> f.a])], p, i + 1, dg)
     ELSE IF f.ft = "crypto" THEN
       IF f.a = "CH" THEN
-        LET dr == Drain(s.off, s.frags \cup {f.b})
+        LET dr == Drain(s.off, IF f.b > s.off THEN s.frags \cup {f.b} ELSE s.frags)   \* a retransmitted piece that is already part of the
+                                                                                     \* stream stays in the buffer for ever and changes nothing
             complete == dr.o = NPieces
             s1 == [s EXCEPT !.off = dr.o, !.frags = dr.fs]
             s2 == IF complete /\ s.off < NPieces                      \* the ClientHello message became complete now
@@ -163,13 +169,13 @@ ClientHelloStep ==
         /\ chSent' = chSent + 1
         /\ nextId' = IF last THEN nextId + Len(z) ELSE nextId
         /\ pc' = IF ~last THEN 1 ELSE IF retry /\ ~retried THEN 2 ELSE 3
-  /\ UNCHANGED <<world, retried, sgen, acked, nApp, kfTaken, held>>
+  /\ UNCHANGED <<world, retx, retried, sgen, acked, nApp, kfTaken, held>>
 
 RetryStep ==
   /\ pc = 2
   /\ Send("s", <<P("R", "s", 0, <<>>)>>)
   /\ retried' = TRUE /\ chSent' = 0 /\ pc' = 1
-  /\ UNCHANGED <<world, sgen, acked, nApp, nextId, kfTaken, held>>
+  /\ UNCHANGED <<world, retx, sgen, acked, nApp, nextId, kfTaken, held>>
 
 ServerFlight ==
   /\ pc = 3
@@ -182,19 +188,19 @@ ServerFlight ==
            ELSE IF ~shSent THEN Send("s", <<i>>) /\ pc' = 3
            ELSE Send("s", <<h>> \o a) /\ pc' = 4
         /\ nextId' = IF sfApp /\ (coalesce \/ shSent) THEN nextId + 1 ELSE nextId
-  /\ UNCHANGED <<world, chSent, retried, sgen, acked, nApp, kfTaken, held>>
+  /\ UNCHANGED <<world, retx, chSent, retried, sgen, acked, nApp, kfTaken, held>>
 
 ClientFinish ==
   /\ pc = 4
   /\ Send("c", <<P("I", "c", 0, <<F("other", "ack", 0)>>), P("H", "c", 0, <<F("other", "ack", 0), F("crypto", "CF", 1)>>)>>
                \o (IF cfApp THEN <<P("A", "c", 0, <<F("stream", nextId, 0)>>)>> ELSE <<>>))
   /\ nextId' = IF cfApp THEN nextId + 1 ELSE nextId
-  /\ pc' = 5 /\ UNCHANGED <<world, chSent, retried, sgen, acked, nApp, kfTaken, held>>
+  /\ pc' = 5 /\ UNCHANGED <<world, retx, chSent, retried, sgen, acked, nApp, kfTaken, held>>
 
 ServerDone ==
   /\ pc = 5
   /\ Send("s", <<P("A", "s", 0, <<F("other", "done", 0), F("other", "ncid", 0)>>)>>)
-  /\ pc' = 6 /\ UNCHANGED <<world, chSent, retried, sgen, acked, nApp, nextId, kfTaken, held>>
+  /\ pc' = 6 /\ UNCHANGED <<world, retx, chSent, retried, sgen, acked, nApp, nextId, kfTaken, held>>
 
 \* application datagram shapes: lists of packets given as lists of frame kinds
 Shapes == { <<<<"stream">>>>, <<<<"ack", "stream", "pad">>>>, <<<<"stream", "ping", "stream">>>>,
@@ -224,7 +230,21 @@ AppDatagram ==
        \* the peer has now seen a packet of generation sgen[d]: it may follow / initiate
        /\ acked' = [acked EXCEPT ![d] = sgen[d]]
   /\ nApp' = nApp + 1
-  /\ UNCHANGED <<world, pc, chSent, retried, sgen, kfTaken, held>>
+  /\ UNCHANGED <<world, retx, pc, chSent, retried, sgen, kfTaken, held>>
+
+\* the client's retransmission timer fires before the server's answer is captured: one Initial packet of the ClientHello flight is sent
+\* again -- a NEW packet (next packet number) with the SAME CRYPTO frames (RFC 9002 6.2.4); between the two packets of a split ClientHello
+\* (the second one was lost before the capture point and both are sent again) or after the whole flight
+RetransmitCh ==
+  /\ AllowRetx /\ retx = 0
+  /\ \/ pc = 1 /\ twoPkts /\ chSent = 1
+     \/ pc = 3 /\ ~(\E k \in 1..Len(hist) : hist[k].d = "s" /\ hist[k].pkts[1].t = "I")      \* the ServerHello has not been captured yet
+  /\ LET fr == ChFrames(split)
+         half == (Len(fr) + 1) \div 2
+     IN \E which \in (IF twoPkts /\ pc = 3 THEN {1, 2} ELSE {1}) :
+          Send("c", <<P("I", "c", 0, IF ~twoPkts THEN fr ELSE IF which = 1 THEN SubSeq(fr, 1, half) ELSE SubSeq(fr, half + 1, Len(fr)))>>)
+  /\ retx' = 1
+  /\ UNCHANGED <<world, pc, chSent, retried, sgen, acked, nApp, nextId, kfTaken, held>>
 
 \* the network delays one application datagram: it is sent now (takes its packet number now) but captured later
 HoldDatagram ==
@@ -233,7 +253,7 @@ HoldDatagram ==
        /\ held' = <<[d |-> d, pkts |-> MkPkts(shape, 1, d, nextId), sn |-> sn, gen |-> sgen[d]]>>
        /\ nextId' = nextId + TotalStream(shape, 1)
   /\ sn' = sn + 1 /\ nApp' = nApp + 1
-  /\ UNCHANGED <<world, pc, chSent, retried, sgen, acked, dgId, expect, implv, kfTaken, hist>>
+  /\ UNCHANGED <<world, retx, pc, chSent, retried, sgen, acked, dgId, expect, implv, kfTaken, hist>>
 ReleaseHeld ==
   /\ held # <<>> /\ LET h == held[1] IN
      /\ (AllowLateAcrossKu \/ sgen[h.d] = h.gen)          \* KF_LateAcrossKeyUpdate: a packet of the old phase after packets of the new one
@@ -243,7 +263,7 @@ ReleaseHeld ==
      /\ hist' = Append(hist, [d |-> h.d, pkts |-> h.pkts, sn |-> h.sn])
      /\ acked' = [acked EXCEPT ![h.d] = IF @ > h.gen THEN @ ELSE h.gen]
   /\ held' = <<>>
-  /\ UNCHANGED <<world, pc, chSent, retried, sgen, nApp, nextId, sn, kfTaken>>
+  /\ UNCHANGED <<world, retx, pc, chSent, retried, sgen, nApp, nextId, sn, kfTaken>>
 
 \* an undecryptable short-header datagram of direction d (consumes one unit of the application budget)
 NoiseDatagram ==
@@ -251,7 +271,7 @@ NoiseDatagram ==
   /\ \E d \in Dir, ph \in NoisePhases :
        Send(d, <<P("N", d, IF ph = "same" THEN sgen[d] ELSE sgen[d] + 1, <<F("noise", ph, 0)>>)>>)
   /\ nApp' = nApp + 1
-  /\ UNCHANGED <<world, pc, chSent, retried, sgen, acked, nextId, kfTaken, held>>
+  /\ UNCHANGED <<world, retx, pc, chSent, retried, sgen, acked, nextId, kfTaken, held>>
 
 \* key update: initiate (own gen = peer's gen, peer has acknowledged this generation) or follow (peer is ahead)
 KeyUpdate ==
@@ -262,16 +282,16 @@ KeyUpdate ==
           \/ sgen[Other(d)] = sgen[d] /\ acked[d] = sgen[d] /\ acked[Other(d)] = sgen[d]  \* initiate: the acknowledgement of a
                                        \* packet of this generation can only have come in a packet of this generation
        /\ sgen' = [sgen EXCEPT ![d] = @ + 1]
-  /\ UNCHANGED <<world, pc, chSent, retried, acked, nApp, nextId, dgId, expect, implv, kfTaken, hist, held, sn>>
+  /\ UNCHANGED <<world, retx, pc, chSent, retried, acked, nApp, nextId, dgId, expect, implv, kfTaken, hist, held, sn>>
 
 Next == ClientHelloStep \/ RetryStep \/ ServerFlight \/ ClientFinish \/ ServerDone \/ AppDatagram \/ KeyUpdate \/ HoldDatagram \/ ReleaseHeld
-        \/ NoiseDatagram
+        \/ NoiseDatagram \/ RetransmitCh
 
 Init == /\ suite \in SuiteSet /\ first \in OfferFirst /\ split \in Splits /\ twoPkts \in BOOLEAN
         /\ retry \in Retries /\ zrtt \in ZeroRtts /\ coalesce \in BOOLEAN /\ cfApp \in BOOLEAN /\ sfApp \in BOOLEAN
         /\ (twoPkts => Len(split) >= 2)
         /\ (AllowEarlyGuess \/ ~zrtt \/ first = "same")            \* KF_EarlySuiteGuess excluded unless allowed
-        /\ pc = 1 /\ chSent = 0 /\ retried = FALSE /\ sgen = [d \in Dir |-> 0] /\ acked = [d \in Dir |-> 0] /\ nApp = 0 /\ nextId = 1 /\ dgId = 1 /\ expect = <<>> /\ held = <<>> /\ sn = 1
+        /\ pc = 1 /\ chSent = 0 /\ retried = FALSE /\ sgen = [d \in Dir |-> 0] /\ acked = [d \in Dir |-> 0] /\ nApp = 0 /\ nextId = 1 /\ dgId = 1 /\ expect = <<>> /\ held = <<>> /\ sn = 1 /\ retx = 0
         /\ initFrom = "none" /\ off = 0 /\ frags = {} /\ haveCR = FALSE /\ suiteSeen = "none" /\ tlsKeys = "none"
         /\ earlyKeys = "none" /\ epoch = [d \in Dir |-> 0] /\ lastPhase = [d \in Dir |-> 0] /\ gens = 0 /\ outbuf = <<>>
         /\ kfTaken = (zrtt /\ first # "same") /\ hist = <<>>
